@@ -176,11 +176,30 @@ func (r *ruleState) follow(req *ReqRec, kind t_api.Kind, id string, mask int, ta
 	if !cont {
 		if req.Spec.Cursor || req.Spec.RawCursor != "" {
 			// continuation of something we did not follow from its first page
+			s.Probes["search_continuation_not_followed"]++
 			delete(travs, req.Client)
 			return
 		}
+		if t != nil {
+			s.Probes["search_traversal_abandoned"]++
+		}
 		t = &traversal{kind: kind, id: id, mask: mask, tags: tags, limit: limit}
 		travs[req.Client] = t
+	} else {
+		// the page must continue where the accumulated pages end: a client that follows the same
+		// cursor twice (a retry, two requests in flight) gets the same page twice, which says
+		// nothing about the traversal
+		var from *int64
+		switch kind {
+		case t_api.SearchPromises:
+			from = req.Req.SearchPromises.SortId
+		case t_api.SearchSchedules:
+			from = req.Req.SearchSchedules.SortId
+		}
+		if len(t.sortIds) == 0 || from == nil || *from != t.sortIds[len(t.sortIds)-1] {
+			s.Probes["search_page_out_of_sequence"]++
+			return
+		}
 	}
 	t.states = append(t.states, st)
 	t.ids = append(t.ids, ids...)
